@@ -871,7 +871,7 @@ def run(ctx):
     rng = ctx.rng
     ninputs, nruns = ctx.n(200, 3000), ctx.n(3, 8)
     check_units(ctx, gen_unit_cases(rng, ctx.n(100, 2000)), tbl, stats)
-    big = []
+    big = [(3, 1500), (2, 2600), (1200, 4)]         # more than a thousand query / build points also in the quick tier
     if ctx.thorough:
         big = [(5000, 3), (3, 5000), (5000, 1), (2000, 8), (8, 2000), (1000, 20), (20, 1000), (500, 60), (60, 500),
                (300, 200), (3500, 4), (1, 5000)]
